@@ -53,7 +53,8 @@ def gen_cases(tier, seed, tag="C09"):
     k = 0
     for i in range(nc):
         rng = intuniv.rng_for(seed, tag + "c", i)
-        cls = gen.rand_class(rng, atoms=False, bytes_p=0)
+        # (a quarter of the classes are pairs: products with two non-trivial, often equal factors)
+        cls = gen.rand_class(rng, atoms=False, bytes_p=0, pairs=0.25)
         cls["proper"] = rng.random() < 0.25
         if rng.random() < 0.6:  # products need a removable front: favour non-empty prefixes
             cls["prefix"] = "".join(rng.choice(cls["alphabet"]) for _ in range(rng.randint(1, 3)))
